@@ -81,6 +81,7 @@ type Ctx struct {
 	activeRules []*CallRule
 	ruleHits  map[string]int
 	lemma     bool
+	stableNames bool
 }
 
 func (c *Ctx) drop(what string) { c.dropped[what]++ }
@@ -246,7 +247,9 @@ func (c *Ctx) run() {
 	// parameters
 	c.paramVals = map[string]*Val{}
 	for _, p := range fn.Params {
+		c.stableNames = true
 		v := c.freshVal(p.Type(), "p_"+p.Name())
+		c.stableNames = false
 		c.vals[p] = v
 		c.paramVals[p.Name()] = v
 	}
